@@ -534,7 +534,10 @@ def r_split_arm(ctx, tv, rule='S2-NO-PRUNING'):
     for c in ext:
         a = c.arg_term(1)
         whole = any(s[0] == 'call' and s[1].endswith('RoaringBitmap>::iter') for s in walk(a)) and any(s[0] == 'field' and s[2] == 'descendants' for s in walk(a))
-        okb = okb and whole and c.callee.endswith('Extend::extend')
+        # only the filter may thin the bucket out: no truncating adaptor (take/skip/step_by ...) on the way
+        LOSSY = ('Iterator::take', 'Iterator::skip', 'Iterator::step_by', 'Iterator::take_while', 'Iterator::skip_while', 'Iterator::nth', 'Iterator::map_while')
+        lossy = [s[1] for s in walk(a) if s[0] == 'call' and s[1].endswith(LOSSY)]
+        okb = okb and whole and not lossy and c.callee.endswith('Extend::extend')
     ctx.check(okb and paths.must_pass(f, desc, [tv._loop_header()], [c.bb for c in ext]), 'S3-BUCKET', f.path + '/bucket-arm', ext[0].loc() if ext else f.loc(),
               'the bucket arm appends every id of the bucket (or of its intersection with the filter)',
               'the bucket arm of `%s` does not append the whole bucket to the candidates' % f.path)
